@@ -245,6 +245,12 @@ class Ctx:
                 self.obligations.append((t, True, "axioms %s" % ax))
         for t in refutations:
             self.notes.append("refutation %s: %s" % (t, res.get(t)))
+        if self.tier == "thorough" and os.environ.get("VERIF_LEANCHECKER", "1") != "0":
+            # independent re-check of the compiled .olean files of the property module (thorough tier only)
+            try:
+                self.leanchecker([module])
+            except subprocess.TimeoutExpired:
+                self.notes.append("leanchecker timed out on %s (not counted)" % module)
         hits = self.grep_forbidden(mods)
         if hits:
             self.obligations.append(("no sorry/axiom/native_decide in %d modules" % len(mods), False, str(hits[:5])))
